@@ -1,17 +1,11 @@
-"""Per-property configuration of ./check: which drivers run, how many cases per tier,
-monitor names (in the order of the Coq harness' monitor list)."""
+"""Per-property configuration of ./check, one module per property under lib/propdefs/Cxx.py
+defining PROP = dict(legs=[...], partial=..., assumptions=[...], level_text=..., technique=...)."""
+import glob, importlib.util, os
 
-PROPS = {
-    "C18": dict(
-        legs=[
-            dict(driver="disk", quick=6000, thorough=300000, shard=400,
-                 monitors=["refuse_exact (spec over Q: refused <-> free < floor(tau))", "refuse_monotone"]),
-            dict(driver="diskwatch", quick=6, thorough=80, shard=100, noshrink=True,
-                 monitors=["watcher_tracks (paused <-> last sample low)", "watcher_alternates"]),
-        ],
-        partial="IEEE-754: the float operations of checkThreshold are exact on the domain (argument in DESIGN.md C18); "
-                "the float->uint64 conversion is modelled as floor where Go defines it (< 2^64) and left unconstrained beyond.",
-        assumptions=["binary64 multiplication/division by powers of two and total*25/128 for total <= 2^38 are exact",
-                     "uint64(f) = floor(f) for 0 <= f < 2^64 (Go spec); implementation-defined beyond, not compared"],
-    ),
-}
+PROPS = {}
+for _f in sorted(glob.glob(os.path.join(os.path.dirname(os.path.abspath(__file__)), "propdefs", "C*.py"))):
+    _pid = os.path.basename(_f)[:-3]
+    _spec = importlib.util.spec_from_file_location("propdef_" + _pid, _f)
+    _m = importlib.util.module_from_spec(_spec)
+    _spec.loader.exec_module(_m)
+    PROPS[_pid] = _m.PROP
